@@ -100,6 +100,7 @@ def check_property(pid, tier, seed, args, t0):
     # functions that could not be analysed: their expected labels are missing -> undecided
     missing = sorted(l for l in expected if l not in status)
 
+    replay_cache = {}
     violations = []      # (label, representative obligation, reason)
     known_hits = []
     undecided = []
@@ -117,7 +118,16 @@ def check_property(pid, tier, seed, args, t0):
             violations.append((l, rep, 'regression: obligation was discharged on the baseline tree '
                                'and is no longer provable (%s)' % rep.get('reason', '?')))
         else:
-            undecided.append((l, rep))
+            # never discharged before and no counter-model: a violation only if the replay
+            # template finds a failing input on the real code, otherwise undecided
+            key = rep['func']
+            if key not in replay_cache:
+                replay_cache[key] = CLI.run_replay(pid, l, rep, tier, seed)
+            if replay_cache[key].get('reproduced'):
+                violations.append((l, rep, 'not provable, and the replay template found a failing '
+                                   'input on the real code'))
+            else:
+                undecided.append((l, rep))
 
     # bounded stand-ins (never counted as proved)
     bounded = run_bounded(pid, tier, seed)
@@ -141,7 +151,9 @@ def check_property(pid, tier, seed, args, t0):
         if rep.get('bounded_failure') is not None:
             rp = {'reproduced': True, 'input': rep['bounded_failure']}
         else:
-            rp = CLI.run_replay(pid, l, rep, tier, seed)
+            if rep['func'] not in replay_cache:
+                replay_cache[rep['func']] = CLI.run_replay(pid, l, rep, tier, seed)
+            rp = replay_cache[rep['func']]
         doc = {'property': pid, 'obligation': l, 'obligation_instance': rep.get('name'),
                'reason': reason, 'verifier_output': {k: rep.get(k) for k in
                                                      ('status', 'backend', 'time', 'reason', 'goal',
